@@ -19,7 +19,8 @@ LEVEL_TEXT = ("Theorem for every authenticator (arbitrary state type and handler
 
 
 def feature_sets(tier):
-    return [[]] if tier == "quick" else [[], core.WIRE_FEATURES]
+    # dispatch must not depend on any feature: all eight wire-feature builds
+    return core.all_wire_feature_sets()
 
 
 ERRS = ["ok", "err:1", "err:2", "err:2e", "err:31", "err:27", "err:7f"]
@@ -33,6 +34,13 @@ def cases(tier, rng, schema, feats):
     for cmd, (variant, t) in REQUESTS.items():
         for k in range(2 if tier == "quick" else 8):
             msgs.append(bytes([cmd]) + cbor.enc(g.named_wire(t, present="all" if k == 0 else None)))
+    # requests whose members are large (every well-formed request reaches its handler, whatever the size of what it carries)
+    for L in (0, 1, 3007, 3008, 3009, 4096, 7000):
+        msgs.append(b"\x0c" + cbor.enc(cbor.M([(2, b"\x5a" * L), (3, 0), (4, L)])))
+        msgs.append(b"\x0c" + cbor.enc(cbor.M([(1, L), (3, 0)])))
+    msgs.append(b"\x02" + cbor.enc(cbor.M([(1, "example.com"), (2, b"\x22" * 32), (3, [cbor.M([("id", b"\x01" * 255), ("type", "public-key")])] * 10)])))
+    msgs.append(b"\x01" + cbor.enc(cbor.M([(1, b"\x11" * 32), (2, cbor.M([("id", "e" * 256), ("name", "n" * 300)])), (3, cbor.M([("id", b"\x01" * 64)])),
+                                             (4, [cbor.M([("alg", -7), ("type", "public-key")])]), (5, [cbor.M([("id", b"\x02" * 255), ("type", "public-key")])] * 16)])))
     for b in (0x04, 0x07, 0x08, 0x0B):
         msgs.append(bytes([b]))
     for v in range(0x42, 0x80):
